@@ -29,7 +29,7 @@ type mres struct {
 	idx  map[string]string // cat map
 	in   []string          // cat in: inputs still to be offered, in order
 	out  []string          // cat out: messages delivered to the receiver, in order
-	list []string // cat log: entries of the persistent log
+	list []string          // cat log: entries of the persistent log
 	// persistent kinds: value durably stored by the last committed section that wrote the cell ("" = never)
 	persist bool
 	stored  string
@@ -98,11 +98,11 @@ type instance struct {
 const nInputs = 12
 
 type wenv struct {
-	w       int
-	scratch string
-	seq     int
-	db      *badgerDB
-	gobs    gobCache
+	w                  int
+	scratch            string
+	seq                int
+	db                 *badgerDB
+	gobs               gobCache
 	portBase, portNext int
 }
 
@@ -138,8 +138,8 @@ func (c gobCache) decode(b []byte) (tla.Value, error) {
 
 func intp(i int) *int { return &i }
 
-func opR(name string) gate2.Op        { return gate2.Op{K: "r", R: name} }
-func opW(name string) gate2.Op        { return gate2.Op{K: "w", R: name} }
+func opR(name string) gate2.Op         { return gate2.Op{K: "r", R: name} }
+func opW(name string) gate2.Op         { return gate2.Op{K: "w", R: name} }
 func opRI(name string, i int) gate2.Op { return gate2.Op{K: "r", R: name, I: intp(i)} }
 func opWI(name string, i int) gate2.Op { return gate2.Op{K: "w", R: name, I: intp(i)} }
 
